@@ -48,7 +48,9 @@ PROPS = {
         "verus": [],
         "bounded": lambda tier: [],
         "design_ref": "DESIGN.md §6 C10",
-        "undecided": [],
+        "undecided": ["text rendering (to_string / Debug) - pending Verus unit"],
+        "level_text": "Every Mer/Kmer operation of each shipped k-mer type is proved equal to the same operation on the K-letter string for ALL storage values and all in-range arguments: Kani contract harnesses over a fully symbolic storage word, loop-free or K-bounded with unwinding assertions (complete, not sampled).",
+        "level_note": "Trusted: rustc->MIR, Kani/CBMC soundness. Preconditions (derived from call sites): bases < 4, from_u64(v) with v < 4^K, set_slice_mut with 1<=n<=32 and pos+n<=K. quick = 11 representative types, thorough = all 19.",
     },
     "C11": {
         "title": "K-mer equality, order and hash are those of the string",
@@ -57,6 +59,8 @@ PROPS = {
         "bounded": lambda tier: [],
         "design_ref": "DESIGN.md §6 C11",
         "undecided": [],
+        "level_text": "History quantifier turned into invariant preservation: every value-producing operation is proved to re-establish `inv` (unused storage bits zero) and ==, cmp, partial_cmp, < and the Hash byte stream are proved to be functions of the string view on inv values, for all pairs of storage words (Kani, complete).",
+        "level_note": "Trusted: rustc->MIR, Kani/CBMC; std sort/dedup/binary_search and boomphf agree with Ord/Eq/Hash (their contracts, not re-verified). Values forged through the pub storage field or serde are outside the quantifier.",
     },
 }
 
@@ -64,3 +68,27 @@ COMMON_TRUST = [
     "rustc lowers the crate to the MIR that Kani verifies; CBMC 6.11 and its SAT back end are sound",
     "Kani models machine arithmetic bit-precisely (overflow, shift and bounds checks stay on): integers are NOT idealised",
 ]
+
+
+HOOK_COMMITS = ["b99dd0a", "cace3e3"]
+
+NOT_APPLICABLE = {
+    "C01": "whole-construction inductive invariant over generic code threading three third-party containers; no single-call contract expresses it and the bounded route is intractable for Kani (see DESIGN.md §6 C01)",
+    "C04": "relational equivalence between two pipelines; follows only from global theorems (C01/C02/C09 + C05 kernel) that no contract here decides (DESIGN.md §6 C04)",
+    "C19": "quantifies over thread schedules of boomphf's rayon builder: Kani has no threads, Verus would have to verify the third-party MPHF (DESIGN.md §6 C19)",
+    "C20": "serde derive output and write!/format! byte streams judged by a parser: string/byte-grammar reasoning neither verifier supports (DESIGN.md §6 C20)",
+    "C02": "not built yet in this session (planned: Verus on try_extend_kmer / extend_kmer, DESIGN.md §6 C02)",
+    "C03": "not built yet in this session (planned: Verus on find_link / find_edges / pruning, DESIGN.md §6 C03)",
+    "C05": "not built yet in this session (planned, DESIGN.md §6 C05)",
+    "C06": "not built yet in this session (planned, DESIGN.md §6 C06)",
+    "C07": "not built yet in this session (planned, DESIGN.md §6 C07)",
+    "C08": "not built yet in this session (planned, DESIGN.md §6 C08)",
+    "C09": "not built yet in this session (planned, DESIGN.md §6 C09)",
+    "C12": "not built yet in this session (planned, DESIGN.md §6 C12)",
+    "C13": "not built yet in this session (planned, DESIGN.md §6 C13)",
+    "C14": "not built yet in this session (planned, DESIGN.md §6 C14)",
+    "C15": "not built yet in this session (planned, DESIGN.md §6 C15)",
+    "C16": "not built yet in this session (planned, DESIGN.md §6 C16)",
+    "C17": "not built yet in this session (planned, DESIGN.md §6 C17)",
+    "C18": "not built yet in this session (planned, DESIGN.md §6 C18)",
+}
